@@ -470,7 +470,16 @@ func (c *Cfg) options(e *env) []mux.Option {
 		opts = append(opts, mux.WithCORS(p.Origins, p.Allow, p.Expose, p.MaxAge, p.Cred))
 	}
 	if c.Cors.On {
-		opts = append(opts, mux.WithCORS(c.Cors.Origins, c.Cors.Allow, c.Cors.Expose, c.Cors.MaxAge, c.Cors.Cred))
+		k := &c.Cors
+		switch {
+		// growth: the two shorthand options stand for exactly these configurations
+		case len(k.Origins) == 1 && k.Origins[0] == "*" && len(k.Allow) == 1 && k.Allow[0] == "*" && len(k.Expose) == 0 && !k.Cred:
+			opts = append(opts, mux.WithAllowedCORS(k.MaxAge))
+		case len(k.Origins) == 0 && len(k.Allow) == 0 && len(k.Expose) == 0 && k.MaxAge == 0 && !k.Cred:
+			opts = append(opts, mux.WithDenyCORS())
+		default:
+			opts = append(opts, mux.WithCORS(k.Origins, k.Allow, k.Expose, k.MaxAge, k.Cred))
+		}
 	}
 	if c.Recovery {
 		opts = append(opts, mux.WithRecovery(func(w http.ResponseWriter, v any) {
